@@ -127,6 +127,25 @@ theorem progress_verdicts (g : Nat) (hc : check (slice prog g) sigs g = true) (f
     ∃ c2, run (slice prog g) globals X2 f g a2 = some (c2, t1) ∧ CtlRel fs.results c1 c2 :=
   check_progress_verdicts (slice prog g) sigs globals X1 X2 hX g hc fs hfs a1 a2 ha f c1 t1 h1 hd
 
+/-- `check_progress` of SMGo/Proofs/CTIRSound.lean, for ANY program, signatures and globals (`progress` above is its instance
+    for `slice prog g`, `sigs`, `globals`) -/
+theorem progress_general (P : Prog) (S : Sigs) (G : Nat → Val) (X1 X2 : Oracle) (hX : OracleRel S X1 X2)
+    (g : Nat) (hc : check P S g = true) (fs : FnSig) (hfs : S.fn[g]? = some fs)
+    (a1 a2 : List Val) (ha : lowEqList fs.params a1 a2) (f : Nat) (c1 : Ctl) (t1 : Trace)
+    (h1 : run P G X1 f g a1 = some (c1, t1)) :
+    (∃ c2, run P G X2 f g a2 = some (c2, t1) ∧ CtlRel fs.results c1 c2) ∨
+      Div t1 (runT P G X2 f g a2).2 :=
+  check_progress P S G X1 X2 hX g hc fs hfs a1 a2 ha f c1 t1 h1
+
+/-- `check_progress_verdicts`, for any program -/
+theorem progress_verdicts_general (P : Prog) (S : Sigs) (G : Nat → Val) (X1 X2 : Oracle) (hX : OracleRel S X1 X2)
+    (g : Nat) (hc : check P S g = true) (fs : FnSig) (hfs : S.fn[g]? = some fs)
+    (a1 a2 : List Val) (ha : lowEqList fs.params a1 a2) (f : Nat) (c1 : Ctl) (t1 : Trace)
+    (h1 : run P G X1 f g a1 = some (c1, t1))
+    (hd : declassOf t1 = declassOf (runT P G X2 f g a2).2) :
+    ∃ c2, run P G X2 f g a2 = some (c2, t1) ∧ CtlRel fs.results c1 c2 :=
+  check_progress_verdicts P S G X1 X2 hX g hc fs hfs a1 a2 ha f c1 t1 h1 hd
+
 /-- the external world: the executable model of math/big, io.ReadFull (tape) and fmt.Errorf satisfies the
     hypothesis `OracleRel` of the theorems above, for any two tapes (contents secret; number, positions
     and lengths of the reads are those of the calls) -/
@@ -471,6 +490,8 @@ example : check [{ nparams := 1, nvars := 2, body := .seq (.declass 1 7 (.var 0)
 #print axioms check_sound
 #print axioms sound
 #print axioms progress
+#print axioms progress_general
+#print axioms progress_verdicts_general
 #print axioms stdOracle_rel
 #print axioms SignHashed_progress
 #print axioms GenerateKey_trace
